@@ -56,6 +56,9 @@ def corpus(tier, seed):
         srcs.append(s); origin.append(("generated", i))
     for s, m in progs.nesting_programs(seed, 100 if tier == "quick" else 8000):
         srcs.append(s); origin.append(("nesting", m))
+    tce = progs.try_clause_exit_programs()
+    for s, m in (tce if tier != "quick" else tce[::3]):
+        srcs.append(s); origin.append(("exit-from-try-clause", m))
     return srcs, origin
 
 def check(res):
